@@ -211,8 +211,11 @@ func handleObjectWithAssociation(metaBkt *bbolt.Bucket, diff *CountersDiff, curr
 			return logicerr.Wrap(apistatus.LockNonRegularObject{})
 		}
 
+		// A tombstone of the target forbids locking whatever else is known about the
+		// target: its expiration (or a lock of a removed object) must not hide the
+		// tombstone, the overall status reports only one of them.
 		st := objectStatus(metaCursor, target, currEpoch)
-		if st == statusTombstoned {
+		if st == statusTombstoned || inGarbage(metaCursor, target) == statusTombstoned {
 			return logicerr.Wrap(apistatus.ErrObjectAlreadyRemoved)
 		}
 
